@@ -15,6 +15,9 @@ HERE = os.path.dirname(os.path.abspath(__file__))
 VERIF = os.path.dirname(HERE)
 LEAN = os.environ.get('VERIF_LEAN_DIR') or os.path.join(VERIF, 'lean')
 REPO = os.environ.get('VERIF_REPO', '/repo')
+# evidence/ and replays/ go under OUT (redirected only by the seeded-change runner, so that a run
+# against a deliberately broken copy never overwrites the evidence of the real tree)
+OUT = os.environ.get('VERIF_OUT_DIR') or VERIF
 ALLOWED_AXIOMS = {'propext', 'Classical.choice', 'Quot.sound'}
 FORBIDDEN_RE = re.compile(r'\b(sorry|admit|native_decide|bv_decide|implemented_by|unsafe)\b|^\s*axiom\s|maxHeartbeats\s+0\b')
 
@@ -183,7 +186,7 @@ class Check(object):
     def clean_replays(self):
         ''' remove stale replay files of this property/tier (called before a normal run, not before --replay) '''
         import glob
-        for old in glob.glob(os.path.join(VERIF, 'replays', '%s_%s_*.json' % (self.prop, self.tier))):
+        for old in glob.glob(os.path.join(OUT, 'replays', '%s_%s_*.json' % (self.prop, self.tier))):
             try:
                 os.unlink(old)
             except OSError:
@@ -270,8 +273,8 @@ class Check(object):
     def finish(self, level='proof'):
         known, _fixed = load_known_findings()
         known = [k for k in known if k.get('property') == self.prop]
-        os.makedirs(os.path.join(VERIF, 'replays'), exist_ok=True)
-        os.makedirs(os.path.join(VERIF, 'evidence'), exist_ok=True)
+        os.makedirs(os.path.join(OUT, 'replays'), exist_ok=True)
+        os.makedirs(os.path.join(OUT, 'evidence'), exist_ok=True)
         new = []
         for v in self.violations:
             hit = None
@@ -292,7 +295,7 @@ class Check(object):
         if new:
             rc = 1
             for i, v in enumerate(new):
-                path = os.path.join(VERIF, 'replays', '%s_%s_%d.json' % (self.prop, self.tier, i))
+                path = os.path.join(OUT, 'replays', '%s_%s_%d.json' % (self.prop, self.tier, i))
                 with open(path, 'w') as f:
                     json.dump({'property': self.prop, 'signature': v['signature'], 'what': v['what'],
                                'replay': v['replay'], 'seed': self.seed,
@@ -302,7 +305,7 @@ class Check(object):
         elif self.proof_broken or self.corr_broken:
             # property no longer shown to hold and no concrete failing input found
             rc = 1
-            path = os.path.join(VERIF, 'replays', '%s_%s_unproved.json' % (self.prop, self.tier))
+            path = os.path.join(OUT, 'replays', '%s_%s_unproved.json' % (self.prop, self.tier))
             with open(path, 'w') as f:
                 json.dump({'property': self.prop, 'no_failing_input_found': True,
                            'proof_broken': self.proof_broken,
@@ -322,7 +325,7 @@ class Check(object):
             'coverage': self.cov, 'assumptions': self.assumptions,
             'wall_s': round(self.elapsed(), 2), 'violations': len(new) + (1 if (rc and not new) else 0),
         }
-        with open(os.path.join(VERIF, 'evidence', '%s.json' % self.prop), 'w') as f:
+        with open(os.path.join(OUT, 'evidence', '%s.json' % self.prop), 'w') as f:
             json.dump(ev, f, indent=1, default=str)
         for l in out_lines:
             print(l)
